@@ -175,6 +175,11 @@ func (s *socket) onOpen() {
 	)
 
 	if i := s.server.Opts().InitialPacket(); i != nil {
+		// every session needs its own copy: a reader is consumed by the first
+		// transport that encodes it
+		if b, ok := i.(types.BufferInterface); ok {
+			i = b.Clone()
+		}
 		s.sendPacket(packet.MESSAGE, i, nil, nil)
 	}
 
